@@ -153,7 +153,11 @@ func walkPNG(b []byte) ([]PNGChunkInfo, error) {
 	return out, nil
 }
 
-func BuildPNG(s PNGSpec) ([]byte, *PNGInfo, error) {
+func BuildPNG(s PNGSpec) ([]byte, *PNGInfo, error) { return BuildPNGZ(s, zlibBytes) }
+
+// BuildPNGZ is BuildPNG with the zlib compressor of the hand writer and of the
+// zTXt chunks supplied by the caller (the image/png writer keeps its own).
+func BuildPNGZ(s PNGSpec, zlibBytes func(data []byte, level int) ([]byte, error)) ([]byte, *PNGInfo, error) {
 	info := &PNGInfo{W: s.W, H: s.H}
 	var base []PNGChunkInfo // chunks without the harness-appended ones
 	switch s.Writer {
@@ -523,6 +527,7 @@ type WAVChunk struct {
 	ID      string  `json:"id"`             // "fmt ", "data", "fact", "LIST", "junk" ...
 	FmtKind string  `json:"fmt,omitempty"`  // fmt: pcm16 | pcm18 (cb_size 0) | ext
 	Info    []WAVKV `json:"info,omitempty"` // LIST INFO members
+	N       int     `json:"n,omitempty"`    // fact: sample_length
 	Payload Payload `json:"payload"`        // data / unknown chunks
 }
 
@@ -588,7 +593,7 @@ func BuildWAV(s WAVSpec) ([]byte, *WAVInfo, error) {
 				b = append(b, 0x01, 0x00, 0x00, 0x00, 0x00, 0x00, 0x10, 0x00, 0x80, 0x00, 0x00, 0xaa, 0x00, 0x38, 0x9b, 0x71)
 			}
 		case "fact":
-			b = binary.LittleEndian.AppendUint32(b, uint32(c.Payload.Len))
+			b = binary.LittleEndian.AppendUint32(b, uint32(c.N))
 		case "LIST":
 			b = []byte("INFO")
 			for _, kv := range c.Info {
